@@ -318,6 +318,45 @@ impl Ctx {
         self.violations.lock().unwrap().len()
     }
 
+    /// Machine readable summary for a parent process (used by privilege-dropped workers)
+    pub fn export(&self) -> Value {
+        let viols = self.violations.lock().unwrap();
+        let kf = self.kf_hits.lock().unwrap();
+        json!({
+            "evaluations": self.evaluations.load(Ordering::Relaxed),
+            "excluded": self.excluded.load(Ordering::Relaxed),
+            "nontrivial": self.nontrivial.lock().unwrap().len(),
+            "violations": viols.iter().map(|v| json!({"sig": v.sig, "kind": v.kind, "case": v.case, "detail": v.detail})).collect::<Vec<_>>(),
+            "known": kf.iter().map(|(k, v)| json!({"sig": k, "hits": v.0, "example": v.1})).collect::<Vec<_>>(),
+            "inconclusive": self.inconclusive.lock().unwrap().clone(),
+        })
+    }
+
+    /// Merge the summary of a worker process into this run
+    pub fn import(&self, v: &Value, class: &str) {
+        let n = v["evaluations"].as_u64().unwrap_or(0);
+        self.eval(n);
+        self.exclude(v["excluded"].as_u64().unwrap_or(0));
+        self.class_n(class, n);
+        // distinct non-trivial cases of the worker are counted under fresh fingerprints
+        let nt = v["nontrivial"].as_u64().unwrap_or(0);
+        let mut fps: Vec<u64> = (0..nt.min(200_000)).map(|i| fp(&(class, i))).collect();
+        self.nontrivial_many(&mut fps);
+        for x in v["violations"].as_array().cloned().unwrap_or_default() {
+            let f = Failure::new(format!("{}|{}", x["sig"].as_str().unwrap_or("?"), class), x["detail"].as_str().unwrap_or("").to_string());
+            self.violation(x["kind"].as_str().unwrap_or("?"), x["case"].clone(), f);
+        }
+        for x in v["known"].as_array().cloned().unwrap_or_default() {
+            let sig = x["sig"].as_str().unwrap_or("?").to_string();
+            let mut g = self.kf_hits.lock().unwrap();
+            let e = g.entry(sig).or_insert_with(|| (0, x["example"].clone()));
+            e.0 += x["hits"].as_u64().unwrap_or(0);
+        }
+        for w in v["inconclusive"].as_array().cloned().unwrap_or_default() {
+            self.inconclusive(&format!("{}: {}", class, w.as_str().unwrap_or("")));
+        }
+    }
+
     /// Stop generating more work once enough distinct violations were collected
     pub fn saturated(&self) -> bool {
         self.violation_count() >= 12
